@@ -14,7 +14,8 @@ CASE_TIMEOUT = 600
 CPU_BUDGET = 500
 REQUIRED_OBS = ["selective_extractions", "members_compared", "archives"]
 RULE = ("archives (solid single folder / 2..4 folders; files, directories, empty files; written by py7zr sessions or by the reference writer) x ALL subsets T of "
-        "member names (<= 7 members) plus absent names, as list or set, +- trailing '/', recursive False/True, output to a WriterFactory or a directory. "
+        "member names (<= 7 members) plus absent names (also names sharing leading characters with members, '', '.'), as list or set, +- trailing '/', recursive False/True/None, "
+        "directories stored with or without trailing '/', output to a WriterFactory (also with a path given: nothing may appear on disk) or a directory. "
         "Model: sel(T,r) = members named in T (slash stripped) + if r members beneath a named directory; expected = extractall restricted to sel; on disk "
         "nothing but selected members and their parent directories exists. Cell = (archive kind, folders, |T| class, recursive, sink, has-absent).")
 EXHAUSTIVE = {"quick": "all subsets of member names for every archive (<= 7 members)", "thorough": "all subsets for archives <= 7 members; sampled subsets for 8..12 members"}
@@ -53,7 +54,7 @@ def cases(rng, tier):
     for i in range(na):
         mem, nf = _gen_archive(rng, 7)
         out.append({"members": [[n, k, (b or b"").hex()] for n, k, b in mem], "folders": nf, "writer": rng.choice(["ref", "py"]), "chain": rng.choice(["LZMA2", "COPY", "BCJ+LZMA2", "ZSTD"]),
-                    "mode": "all", "seed": rng.getrandbits(32), "open": rng.choice(["path", "stream"])})
+                    "mode": "all", "seed": rng.getrandbits(32), "open": rng.choice(["path", "stream"]), "dirslash": i % 3 == 2})
     if tier == "thorough":
         for i in range(100):
             mem, nf = _gen_archive(rng, 12)
@@ -91,7 +92,8 @@ def _build(case, d):
     order = [m for m in mem if m[1] != "file"] + files if nf > 1 else mem
     for i, (n, k, b) in enumerate(order):
         if k == "dir":
-            members.append({"name": n, "kind": "dir", "attributes": 0x10 | 0x8000 | (0o040755 << 16), "mtime": 132000000000000000 + i})
+            # some writers store directory names with a trailing slash
+            members.append({"name": n + ("/" if case.get("dirslash") else ""), "kind": "dir", "attributes": 0x10 | 0x8000 | (0o040755 << 16), "mtime": 132000000000000000 + i})
         elif k == "emptyfile":
             members.append({"name": n, "kind": "emptyfile", "attributes": 0x20 | 0x8000 | (0o100644 << 16), "mtime": 132000000000000000 + i})
         else:
@@ -99,14 +101,19 @@ def _build(case, d):
     ns = len(files)
     parts = [ns // nf + (1 if i < ns % nf else 0) for i in range(nf)] if ns else []
     lay = {"folders": [{"n": p, "chain": chain, "crc": "sub"} for p in parts if p], "header": "lzma+crc"}
+    if case.get("dirslash"):
+        order = [((n + "/") if k == "dir" else n, k, b) for n, k, b in order]
     return order, W.build(members, lay)
 
 
 def sel(names_kinds, targets, recursive):
+    """The model: a trailing slash is immaterial on a target and on a stored name (other writers store directories as 'name/');
+    beneath a named directory = the name continues with '/' after the target."""
     t = {x[:-1] if x.endswith("/") else x for x in targets}
     out = []
     for n, k in names_kinds:
-        if n in t:
+        bare = n[:-1] if n.endswith("/") else n
+        if bare in t:
             out.append(n)
         elif recursive and any(n.startswith(x + "/") for x in t):
             out.append(n)
@@ -145,32 +152,49 @@ def run_case(case):
         else:
             for _ in range(150):
                 subsets.append(r.sample(names, r.randint(0, len(names))))
+        # names that are not members but share leading characters with members (or are empty / a bare separator)
+        near = sorted({n[:k] for n in names for k in (1, len(n) // 2, len(n) - 1) if 0 < k < len(n)} | {(n.rsplit("/", 1)[0] + "/" + n.rsplit("/", 1)[1][:1]) for n in names if "/" in n} | {"", ".", "./"})
+        near = [x for x in near if x.rstrip("/") not in {n.rstrip("/") for n in names}]
         for si, T in enumerate(subsets):
-            for recursive in (False, True):
+            for recursive in (False, True, None):
+                if recursive is None and si % 4:
+                    continue
                 targets = list(T)
                 absent = (si % 3 == 0)
                 if absent:
                     targets.append("no-such-member")
                     targets.append("d0/nothing")
+                    if near:
+                        targets.append(near[si % len(near)])
+                        targets.append(near[(si * 7 + 3) % len(near)])
                 if si % 2:
                     targets = [t + "/" if (i + si) % 2 else t for i, t in enumerate(targets)]
                 tobj = set(targets) if si % 4 >= 2 else list(targets)
                 want = sel(nk, targets, recursive)
-                sink = "factory" if (si + recursive) % 2 == 0 else "disk"
+                sink = "factory" if (si + (1 if recursive else 0)) % 2 == 0 else "disk"
                 obs["selective_extractions"] += 1
                 tag = "T=%r recursive=%s sink=%s (%s, %d folders)" % (targets[:5], recursive, sink, case["writer"], case["folders"])
                 try:
                     if sink == "factory":
                         fac = pz.CollectFactory()
+                        ghost = os.path.join(d, "ghost%d" % si, "deep") if si % 5 == 0 else None
                         with py7zr.SevenZipFile(src()) as z:
-                            z.extract(targets=tobj, recursive=recursive, factory=fac)
+                            if ghost:
+                                z.extract(path=ghost, targets=tobj, recursive=recursive, factory=fac)
+                            else:
+                                z.extract(targets=tobj, recursive=recursive, factory=fac)
                         got = fac.as_dict()
+                        if ghost:
+                            obs["factory_with_path"] = obs.get("factory_with_path", 0) + 1
+                            if os.path.exists(os.path.dirname(ghost)):
+                                viol.append({"key": "factory-sink-creates-directory", "what": "%s: extract(path=P, factory=F) created %r on disk" % (tag, os.path.relpath(ghost, d))})
+                            got = {(k[len(ghost) + 1:] if k.startswith(ghost + "/") else k): v for k, v in got.items()}
                         want_files = {n: full[n] for n in want if n in full}
                         obs["members_compared"] += len(want_files)
                         if set(got) != set(want_files):
                             missing = sorted(set(want_files) - set(got))
                             extra = sorted(set(got) - set(want_files))
-                            viol.append({"key": "selection-differs/%s/%s" % ("missing" if missing else "extra", "recursive" if recursive else "flat"),
+                            viol.append({"key": "selection-differs/%s/%s" % ("missing" if missing else "extra", "recursive" if recursive else ("flat" if recursive is False else "recursive=None")),
                                          "what": "%s: delivered %r, model selects %r" % (tag, sorted(got)[:6], sorted(want_files)[:6])})
                         else:
                             for n, b in want_files.items():
@@ -179,19 +203,19 @@ def run_case(case):
                                         tag, n, len(got[n]), pz.crc(got[n]), len(b), pz.crc(b))})
                                     break
                     else:
-                        out = os.path.join(d, "o%d_%d" % (si, recursive))
+                        out = os.path.join(d, "o%d_%s" % (si, recursive))
                         with py7zr.SevenZipFile(src()) as z:
                             z.extract(path=out, targets=tobj, recursive=recursive)
                         tree = pz.walk_tree(out) if os.path.isdir(out) else {}
                         allowed_dirs = set()
                         for n in want:
-                            parts = n.split("/")
+                            parts = n.rstrip("/").split("/")
                             for i in range(1, len(parts)):
                                 allowed_dirs.add("/".join(parts[:i]))
                         kinds = dict(nk)
                         for n in want:
                             obs["members_compared"] += 1
-                            rec = tree.get(n)
+                            rec = tree.get(n.rstrip("/"))
                             if rec is None:
                                 viol.append({"key": "selected-member-not-created/%s" % kinds[n], "what": "%s: %r (%s) selected but not created" % (tag, n, kinds[n])})
                                 break
@@ -201,8 +225,9 @@ def run_case(case):
                             elif rec["kind"] != "file" or rec["data"] != full.get(n, b""):
                                 viol.append({"key": "bytes-differ-from-extractall", "what": "%s: %r on disk differs from extractall's bytes" % (tag, n)})
                                 break
+                        want_bare = {n.rstrip("/") for n in want}
                         for p, rec in tree.items():
-                            if p in want:
+                            if p in want_bare:
                                 continue
                             if rec["kind"] == "dir" and p in allowed_dirs:
                                 continue
@@ -210,7 +235,7 @@ def run_case(case):
                             break
                 except Exception as e:
                     viol.append({"key": "raises/%s" % type(e).__name__, "what": "%s raised %s" % (tag, pz.exc_sig(e))})
-                cells.add("%s|f%d|T%s|%s|%s|%s" % (case["writer"], case["folders"], "0" if not T else ("all" if len(T) == len(names) else "some"), "rec" if recursive else "flat", sink, "absent" if absent else "-"))
+                cells.add("%s|f%d|T%s|%s|%s|%s" % (case["writer"], case["folders"], "0" if not T else ("all" if len(T) == len(names) else "some"), "rec" if recursive else ("flat" if recursive is False else "none"), sink, "absent" if absent else "-"))
                 if len(viol) > 12:
                     break
             if len(viol) > 12:
